@@ -23,6 +23,9 @@ struct Config
     void (*f2h_block_class) (uint32_t, uint16_t*) = nullptr;
     void (*h2f_all_class) (uint32_t*)             = nullptr;
     const uint32_t* (*table) ()                   = nullptr;
+    int (*nconst) ()                              = nullptr;
+    void (*const_inputs) (uint32_t*)              = nullptr;
+    void (*const_fn[4]) (uint16_t*)               = { nullptr, nullptr, nullptr, nullptr }; // C function, constructor, assignment, static object
     int  flags = 0;
     long cplusplus = 0;
     bool f16c () const { return flags & 1; }
@@ -62,6 +65,12 @@ static std::vector<Config>& configs ()
             c.f2h_block_class = (void (*) (uint32_t, uint16_t*)) dlsym (c.h, "vp_f2h_block_class");
             c.h2f_all_class   = (void (*) (uint32_t*)) dlsym (c.h, "vp_h2f_all_class");
             c.table           = (const uint32_t* (*) ()) dlsym (c.h, "vp_table");
+            c.nconst          = (int (*) ()) dlsym (c.h, "vp_nconst");
+            c.const_inputs    = (void (*) (uint32_t*)) dlsym (c.h, "vp_const_inputs");
+            c.const_fn[0]     = (void (*) (uint16_t*)) dlsym (c.h, "vp_const_cfunction");
+            c.const_fn[1]     = (void (*) (uint16_t*)) dlsym (c.h, "vp_const_ctor");
+            c.const_fn[2]     = (void (*) (uint16_t*)) dlsym (c.h, "vp_const_assign");
+            c.const_fn[3]     = (void (*) (uint16_t*)) dlsym (c.h, "vp_const_static");
             auto fl           = (int (*) ()) dlsym (c.h, "vp_config_flags");
             auto cp           = (long (*) ()) dlsym (c.h, "vp_cplusplus");
             if (!c.f2h_block || !c.h2f_all || !fl || !c.table)
@@ -74,7 +83,7 @@ static std::vector<Config>& configs ()
             r.push_back (c);
         }
         {
-            static const char* expect[] = { "gxx17-table", "gxx14-table", "gxx20-table", "clangxx17-table", "gxx17-notable", "gxx14-notable", "gxx20-notable", "clangxx17-notable", "gxx17-cmake-lookup-off", "clangxx17-cmake-lookup-off", "gcc-c11-table", "gcc-c11-notable", "gcc-c99-notable", "clang-c11-table", "clang-c11-notable", "gcc-c11-cmake-lookup-off", "gxx17-fpexc", "gcc-c11-fpexc", "gxx17-f16c", "clangxx17-f16c", "gcc-c11-f16c", "gxx17-f16c-notable" };
+            static const char* expect[] = { "gxx17-table", "gxx14-table", "gxx20-table", "clangxx17-table", "gxx17-notable", "gxx14-notable", "gxx20-notable", "clangxx17-notable", "gxx17-cmake-lookup-off", "clangxx17-cmake-lookup-off", "gcc-c11-table", "gcc-c11-notable", "gcc-c99-notable", "clang-c11-table", "clang-c11-notable", "gcc-c11-cmake-lookup-off", "gxx17-fpexc", "gcc-c11-fpexc", "gxx17-f16c", "clangxx17-f16c", "gcc-c11-f16c", "gxx17-f16c-notable", "gxx17-f16c-fpexc", "gcc-c11-f16c-fpexc" };
             // labels are positional: when F16C configurations are skipped they are at the end, so the prefix must match
             for (size_t i = 0; i < r.size (); ++i)
                 if (i >= sizeof (expect) / sizeof (expect[0]) || r[i].name != expect[i])
@@ -93,7 +102,7 @@ static std::vector<Config>& configs ()
     return v;
 }
 
-#define C02_CONFIG_LABELS "gxx17-table", "gxx14-table", "gxx20-table", "clangxx17-table", "gxx17-notable", "gxx14-notable", "gxx20-notable", "clangxx17-notable", "gxx17-cmake-lookup-off", "clangxx17-cmake-lookup-off", "gcc-c11-table", "gcc-c11-notable", "gcc-c99-notable", "clang-c11-table", "clang-c11-notable", "gcc-c11-cmake-lookup-off", "gxx17-fpexc", "gcc-c11-fpexc", "gxx17-f16c", "clangxx17-f16c", "gcc-c11-f16c", "gxx17-f16c-notable"
+#define C02_CONFIG_LABELS "gxx17-table", "gxx14-table", "gxx20-table", "clangxx17-table", "gxx17-notable", "gxx14-notable", "gxx20-notable", "clangxx17-notable", "gxx17-cmake-lookup-off", "clangxx17-cmake-lookup-off", "gcc-c11-table", "gcc-c11-notable", "gcc-c99-notable", "clang-c11-table", "clang-c11-notable", "gcc-c11-cmake-lookup-off", "gxx17-fpexc", "gcc-c11-fpexc", "gxx17-f16c", "clangxx17-f16c", "gcc-c11-f16c", "gxx17-f16c-notable", "gxx17-f16c-fpexc", "gcc-c11-f16c-fpexc"
 
 static inline bool always_full (const std::string& n, int spelling)
 {
@@ -143,7 +152,7 @@ VP_EXHAUSTIVE (f2h_all_configs, 65536, 65536, "every float bit pattern (index = 
     c.bulk (evals, nt);
 }
 
-VP_LABELS (f2h_all_configs, "gxx17-table", "gxx14-table", "gxx20-table", "clangxx17-table", "gxx17-notable", "gxx14-notable", "gxx20-notable", "clangxx17-notable", "gxx17-cmake-lookup-off", "clangxx17-cmake-lookup-off", "gcc-c11-table", "gcc-c11-notable", "gcc-c99-notable", "clang-c11-table", "clang-c11-notable", "gcc-c11-cmake-lookup-off", "gxx17-fpexc", "gcc-c11-fpexc", "gxx17-f16c", "clangxx17-f16c", "gcc-c11-f16c", "gxx17-f16c-notable")
+VP_LABELS (f2h_all_configs, "gxx17-table", "gxx14-table", "gxx20-table", "clangxx17-table", "gxx17-notable", "gxx14-notable", "gxx20-notable", "clangxx17-notable", "gxx17-cmake-lookup-off", "clangxx17-cmake-lookup-off", "gcc-c11-table", "gcc-c11-notable", "gcc-c99-notable", "clang-c11-table", "clang-c11-notable", "gcc-c11-cmake-lookup-off", "gxx17-fpexc", "gcc-c11-fpexc", "gxx17-f16c", "clangxx17-f16c", "gcc-c11-f16c", "gxx17-f16c-notable", "gxx17-f16c-fpexc", "gcc-c11-f16c-fpexc")
 
 VP_EXHAUSTIVE (h2f_all_configs, 1, 1, "every half bit pattern x every configuration compared bit-for-bit with the reference configuration and with the independent by-value oracle; F16C: NaN payload may differ, NaN-ness and sign must agree; the in-memory table of every table configuration is compared entry-for-entry")
 {
@@ -187,7 +196,7 @@ VP_EXHAUSTIVE (h2f_all_configs, 1, 1, "every half bit pattern x every configurat
     c.bulk (evals, evals);
 }
 
-VP_LABELS (h2f_all_configs, "gxx17-table", "gxx14-table", "gxx20-table", "clangxx17-table", "gxx17-notable", "gxx14-notable", "gxx20-notable", "clangxx17-notable", "gxx17-cmake-lookup-off", "clangxx17-cmake-lookup-off", "gcc-c11-table", "gcc-c11-notable", "gcc-c99-notable", "clang-c11-table", "clang-c11-notable", "gcc-c11-cmake-lookup-off", "gxx17-fpexc", "gcc-c11-fpexc", "gxx17-f16c", "clangxx17-f16c", "gcc-c11-f16c", "gxx17-f16c-notable")
+VP_LABELS (h2f_all_configs, "gxx17-table", "gxx14-table", "gxx20-table", "clangxx17-table", "gxx17-notable", "gxx14-notable", "gxx20-notable", "clangxx17-notable", "gxx17-cmake-lookup-off", "clangxx17-cmake-lookup-off", "gcc-c11-table", "gcc-c11-notable", "gcc-c99-notable", "clang-c11-table", "clang-c11-notable", "gcc-c11-cmake-lookup-off", "gxx17-fpexc", "gcc-c11-fpexc", "gxx17-f16c", "clangxx17-f16c", "gcc-c11-f16c", "gxx17-f16c-notable", "gxx17-f16c-fpexc", "gcc-c11-f16c-fpexc")
 
 // ---------------------------------------------------------------------------
 // Every back-end must also agree when the calling thread's floating-point environment is not the default one: the
@@ -279,7 +288,7 @@ VP_EXHAUSTIVE (f2h_fp_environment, 65536, 65536, "float bit patterns (index = bl
                 }
                 evals += 65536;
                 c.bulk_label ((int) k, 65536);
-                c.bulk_label (22 + m, 65536);
+                c.bulk_label (24 + m, 65536);
             }
         }
     }
@@ -315,6 +324,35 @@ VP_EXHAUSTIVE (h2f_fp_environment, 4, 4, "every half bit pattern x every configu
                 VP_FAIL (c, std::string ("h2f-fp-environment/") + cf[k].name + (spelling ? "/class" : "/c-function"), "under " << FPMODE[m] << " half 0x" << std::hex << h << " -> 0x" << got[h] << " in configuration " << cf[k].name << " expected 0x" << want);
             }
             evals += 65536;
+        }
+    }
+    c.bulk (evals, evals);
+}
+
+VP_EXHAUSTIVE (constant_arguments, 1, 1, "48 literal arguments (signed zeros, ties, thresholds, subnormal results, extremes, infinities) converted where the argument is a compile-time constant, in every configuration: imath_float_to_half(literal), half(literal), h = literal, and a namespace-scope static const half(literal); compared with the by-value oracle (the optimiser may fold these calls; a shortcut keyed on __builtin_constant_p runs only here); non-trivial = always")
+{
+    auto& cf = configs ();
+    (void) idx;
+    static const char* SP[4] = { "imath_float_to_half(literal)", "half(literal)", "h = literal", "static const half(literal)" };
+    uint64_t evals = 0;
+    VP_NOTE (c, "literal arguments in " << cf.size () << " configurations");
+    for (size_t k = 0; k < cf.size (); ++k)
+    {
+        if (!cf[k].nconst || !cf[k].const_inputs) VP_FAIL (c, "shim-incomplete", "configuration " << cf[k].name << " lacks the constant-argument entry points");
+        int                   n = cf[k].nconst ();
+        std::vector<uint32_t> in (n);
+        std::vector<uint16_t> out (n);
+        cf[k].const_inputs (in.data ());
+        for (int sp = 0; sp < 4; ++sp)
+        {
+            if (!cf[k].const_fn[sp]) continue;
+            cf[k].const_fn[sp](out.data ());
+            for (int i = 0; i < n; ++i)
+            {
+                uint16_t want = ref_f2h_bits (in[i]);
+                ++evals;
+                if (out[i] != want) VP_FAIL (c, std::string ("constant-argument/") + cf[k].name, SP[sp] << " with the literal whose float bits are 0x" << std::hex << in[i] << " gives 0x" << out[i] << " in configuration " << cf[k].name << ", expected 0x" << want);
+            }
         }
     }
     c.bulk (evals, evals);
